@@ -1604,6 +1604,9 @@ class IntegrityProtectedSKEDataV1(IntegrityProtectedSKEData):
         if not constant_time.bytes_eq(iv[-2:], ivl2):
             raise PGPDecryptionError("Decryption failed")  # pragma: no cover
 
+        # the MDC packet has done its job; it is not part of the message, and a last packet of indeterminate length (old format,
+        # length type 3) would otherwise run on into it
+        del pt[-22:]
         return pt
 
 
